@@ -1403,7 +1403,7 @@ fn run_qy(o: &mut CaseOut, data: &Item, index: &Item, mode: qy::Mode, qseed: u64
                         // first record of the sync answer that the async answer lacks altogether, the async answer going on with a
                         // later record of the sync answer (a partially consumed stream yields the same NUMBER of records, shifted)
                         let j = (0..er.len()).find(|&j| gr.get(j) != Some(&er[j]));
-                        let missing = j.filter(|&j| !gr.contains(&er[j]) && gr.get(j).map(|x| er[j + 1..].contains(x)).unwrap_or(true)).map(|j| &er[j]);
+                        let missing = j.filter(|&j| !gr.contains(&er[j]) && gr.get(j).map(|x| er[j + 1..].contains(x) || matches!(q, Some(qy::Q::Partial(..)))).unwrap_or(true)).map(|j| &er[j]);
                         {
                             if let Some(m) = missing {
                                 let cols: Vec<&str> = m[2..].split('\t').collect();
